@@ -33,3 +33,70 @@ pub(crate) fn mv_of(m: Move) -> sp::Mv {
 pub(crate) fn move_of(m: sp::Mv) -> Move {
     Move { from: sq(m.from), to: sq(m.to), promotion: opt_piece(m.promo) }
 }
+
+// ---- loop-cut switch (E2) ----------------------------------------------------------------------
+// harnesses that rely on loop-invariant VCs set CUT; during a concrete replay against the real loops
+// (VERIF_NOCUT=1, test build) the original loops run instead.
+pub(crate) static mut CUT: bool = false;
+#[cfg(test)]
+pub(crate) fn nocut() -> bool { std::env::var("VERIF_NOCUT").is_ok() }
+#[cfg(not(test))]
+pub(crate) fn nocut() -> bool { false }
+pub(crate) fn cut_on() { unsafe { CUT = true; } }
+pub(crate) fn cut_active() -> bool { let c = unsafe { CUT }; c && !nocut() }
+
+/// a fully symbolic position record with in-range scalar fields (no structural assumption)
+pub(crate) fn any_pos_raw() -> sp::Pos {
+    let p = sp::Pos {
+        pieces: [kani::any(), kani::any(), kani::any(), kani::any(), kani::any(), kani::any()],
+        colors: [kani::any(), kani::any()],
+        stm: kani::any(),
+        castle: [[kani::any(), kani::any()], [kani::any(), kani::any()]],
+        ep: kani::any(),
+        halfmove: kani::any(),
+        fullmove: kani::any(),
+    };
+    kani::assume(p.stm < 2 && p.ep <= 8);
+    kani::assume(p.castle[0][0] <= 8 && p.castle[0][1] <= 8 && p.castle[1][0] <= 8 && p.castle[1][1] <= 8);
+    p
+}
+
+/// wraps a harness: #[kani::proof] + the contract stubs of every lookup (justified by O-C05.*)
+macro_rules! board_proof {
+    ($(#[$m:meta])* fn $name:ident() $body:block) => {
+        #[kani::proof]
+        #[kani::stub(crate::moves::get_rook_moves, crate::moves::verif_moves::st_rook_moves)]
+        #[kani::stub(crate::moves::get_bishop_moves, crate::moves::verif_moves::st_bishop_moves)]
+        #[kani::stub(crate::moves::get_rook_rays, crate::moves::verif_moves::st_rook_rays)]
+        #[kani::stub(crate::moves::get_bishop_rays, crate::moves::verif_moves::st_bishop_rays)]
+        #[kani::stub(crate::moves::get_between_rays, crate::moves::verif_moves::st_between)]
+        #[kani::stub(crate::moves::get_line_rays, crate::moves::verif_moves::st_line)]
+        #[kani::stub(crate::moves::get_knight_moves, crate::moves::verif_moves::st_knight)]
+        #[kani::stub(crate::moves::get_king_moves, crate::moves::verif_moves::st_king)]
+        #[kani::stub(crate::moves::get_pawn_attacks, crate::moves::verif_moves::st_pawn_attacks)]
+        #[kani::stub(crate::moves::get_pawn_quiets, crate::moves::verif_moves::st_pawn_quiets)]
+        $(#[$m])*
+        fn $name() $body
+    };
+}
+pub(crate) use board_proof;
+
+/// board_proof + the four hash writers replaced by their contracts (O-C10.writer.*, O-C10.contract-stubs)
+macro_rules! hash_proof {
+    ($(#[$m:meta])* fn $name:ident() $body:block) => {
+        crate::verif_common::board_proof! {
+            #[kani::stub(crate::board::zobrist::ZobristBoard::xor_square, crate::board::zobrist::verif_zobrist::ct_xor_square)]
+            #[kani::stub(crate::board::zobrist::ZobristBoard::set_castle_right, crate::board::zobrist::verif_zobrist::ct_set_castle_right)]
+            #[kani::stub(crate::board::zobrist::ZobristBoard::set_en_passant, crate::board::zobrist::verif_zobrist::ct_set_en_passant)]
+            #[kani::stub(crate::board::zobrist::ZobristBoard::toggle_side_to_move, crate::board::zobrist::verif_zobrist::ct_toggle_side_to_move)]
+            $(#[$m])*
+            fn $name() $body
+        }
+    };
+}
+pub(crate) use hash_proof;
+
+/// when set, loop invariants are not the subject of the harness: hooks havoc without constraint
+pub(crate) static mut INV_OFF: bool = false;
+pub(crate) fn inv_off() -> bool { unsafe { INV_OFF } }
+pub(crate) fn set_inv_off() { unsafe { INV_OFF = true; } }
